@@ -123,6 +123,13 @@ SEMANTIC = {
     "M13 index form without the look at the cache after a resumption": (_it(INDEX.replace('''                if position < len(self.values):
                     break
 ''', "")), None),
+    "M14 __getitem__ pulls from the source without caching": (lambda s: s.replace(
+        """            for v in self.iterable:
+                self.values[v.id_] = v
+                if v.id_ == id_:""", """            for v in self.iterable:
+                if v.id_ == id_:"""), None),
+    "M15 __len__ drains the source": (lambda s: s.replace(
+        "        return len(self.values)\n", "        return len(self.values) + len(list(self.iterable))\n"), None),
 }
 
 HARMLESS = {
@@ -175,7 +182,7 @@ HARMLESS = {
 '''),
 }
 
-# recognised, property-preserving on non-overlapping schedules, but a different machine under interleaving
+# recognised IterOk shapes other than today's (S1: a different machine under interleaving, still F-C03-1; S2: the repair)
 OTHER = {
     "S1 snapshot replay": (_it('''        yield from list(self.values.values())
         for v in self.iterable:
